@@ -37,7 +37,12 @@ func c42State(prefix string) *CertState {
 		cs.v1Cert = &vCert{name: "me", ver: cert.Version1, networks: nets, curve: curve}
 	}
 	if shape != 0 {
-		cs.v2Cert = &vCert{name: "me", ver: cert.Version2, networks: nets, curve: curve}
+		v2nets := nets
+		if verifBool(prefix + "_v2_extra_network") {
+			// a v2 certificate may carry more networks than its v1 twin (newCertState compares the primary one only)
+			v2nets = []netip.Prefix{nets[0], netip.MustParsePrefix("fd00::1/64")}
+		}
+		cs.v2Cert = &vCert{name: "me", ver: cert.Version2, networks: v2nets, curve: curve}
 	}
 	return cs
 }
@@ -45,6 +50,26 @@ func c42State(prefix string) *CertState {
 func c42Nets(cs *CertState) []netip.Prefix {
 	if cs.v2Cert != nil {
 		return cs.v2Cert.Networks()
+	}
+	return cs.v1Cert.Networks()
+}
+
+func c42SameNets(a, b []netip.Prefix) bool {
+	if len(a) != len(b) {
+		return false
+	}
+	for i := range a {
+		if a[i] != b[i] {
+			return false
+		}
+	}
+	return true
+}
+
+// c42V1Nets: the v1 certificate's networks (nil when absent); a reload that changes them while a v1 cert stays is refused too.
+func c42V1Nets(cs *CertState) []netip.Prefix {
+	if cs.v1Cert == nil {
+		return nil
 	}
 	return cs.v1Cert.Networks()
 }
@@ -93,11 +118,25 @@ func VerifC42Reload() {
 		verifAssert(now == c42Next, "an accepted reload installs the new certificates")
 	}
 	// whatever happened, the identity in use did not change
-	same := len(c42Nets(now)) == 1 && c42Nets(now)[0] == c42Nets(cur)[0] && c42Curve(now) == c42Curve(cur)
-	verifAssert(same, "the node's overlay networks and curve are the same after any reload")
+	// identity: same curve, same primary network, and no overlay network the node had is lost (a v2 certificate
+	// added next to a v1 one may bring further networks: nebula allows that on purpose)
+	kept := true
+	for _, n := range c42Nets(cur) {
+		found := false
+		for _, m := range c42Nets(now) {
+			if m == n {
+				found = true
+			}
+		}
+		kept = kept && found
+	}
+	same := kept && c42Nets(now)[0] == c42Nets(cur)[0] && c42Curve(now) == c42Curve(cur)
+	verifAssert(same, "after any reload the node has the same curve and primary network and has lost none of its overlay networks")
 	// completeness: a reload that keeps networks and curve and does not drop v2 without v1 is accepted
-	if c42NextErr == nil && c42Nets(c42Next)[0] == c42Nets(cur)[0] && c42Curve(c42Next) == c42Curve(cur) {
-		verifAssert(cerr == nil, "a reload that keeps the identity is accepted")
+	renewal := c42NextErr == nil && (c42Next.v1Cert == nil) == (cur.v1Cert == nil) && (c42Next.v2Cert == nil) == (cur.v2Cert == nil) &&
+		c42SameNets(c42Nets(c42Next), c42Nets(cur)) && c42SameNets(c42V1Nets(c42Next), c42V1Nets(cur)) && c42Curve(c42Next) == c42Curve(cur)
+	if renewal {
+		verifAssert(cerr == nil, "a renewal (same versions, networks and curve) is accepted")
 	}
 
 	// trust store: an unreadable CA bundle keeps the previous pool
